@@ -679,7 +679,7 @@ pub fn check_stream_case(prefix: &[u64], kind: &ExtKind, ev: &[u64], scan: u64) 
                 ExtKind::WithBound(dist) => c.extrapolate_with_bound((d(*dist + 1), p.len() + 2)),
                 ExtKind::Lazy => {}
             }
-            covered = crate::derived::curve_vector(&c).last().copied().unwrap_or(0);
+            covered = crate::derived::largest_distance(&c).unwrap_or(0);
             for n in 0..=(p.len() + 1) {
                 let before = du(raw.min_distance(n));
                 let after = du(c.min_distance(n));
